@@ -65,6 +65,11 @@ def run_job(ll, cfg, prefix, forced=(), probe=False):
         from .ir import Module
         from .engine import Engine, NeedChoice, EngineError, Probe
         if probe: cfg = dict(cfg, probe=True)
+        dl = cfg.get('deadline')
+        if dl:
+            left = dl - time.time()
+            if left < 5: return ('skipped', (prefix, forced), None)
+            cfg = dict(cfg, time_budget=min(cfg.get('time_budget') or left, left))
         mod = _modcache.get(ll)
         if mod is None:
             mod = Module(ll); _modcache[ll] = mod
@@ -141,7 +146,7 @@ def match_known(known, prop, hname, v):
         return k
     return None
 
-def run_property(prop, harnesses, tier, seed, jobs, text, assumptions, design_ref):
+def run_property(prop, harnesses, tier, seed, jobs, text, assumptions, design_ref, wall_budget=None):
     t0 = time.time()
     rnd = random.Random(seed)
     work = tempfile.mkdtemp(prefix='irsx_%s_' % prop)
@@ -186,6 +191,7 @@ def run_property(prop, harnesses, tier, seed, jobs, text, assumptions, design_re
                     agg['errors'].append('%s: %s' % (h['name'], x)); continue
                 cfg = dict(h['cfg']); cfg.setdefault('dump_every', 50 if tier == 'quick' else 10)
                 cfg.setdefault('time_budget', 150 if tier == 'quick' else 1500)
+                if wall_budget: cfg['deadline'] = t0 + wall_budget
                 per_h[h['name']] = dict(h=h, ll=ll, cfg=cfg, results=[], t0=time.time())
                 f = pool.submit(run_job, ll, cfg, (), (), bool(h.get('split'))); pending[f] = h['name']
             tlast = time.time()
@@ -206,6 +212,9 @@ def run_property(prop, harnesses, tier, seed, jobs, text, assumptions, design_re
                         import itertools
                         for fv in itertools.product((1, 0), repeat=split):
                             f2 = pool.submit(run_job, ph['ll'], ph['cfg'], tuple(prefix), fv, False); pending[f2] = hn
+                    elif kind == 'skipped':
+                        k = hn + ':wall budget of the run reached (job not run)'
+                        agg['bound_hits'][k] = agg['bound_hits'].get(k, 0) + 1
                     elif kind == 'error':
                         agg['errors'].append('%s %s: %s' % (hn, list(prefix), payload))
                     else:
@@ -328,7 +337,7 @@ def run_property(prop, harnesses, tier, seed, jobs, text, assumptions, design_re
                                          decided_by_interval=int(st.get('interval_decided', 0)), solver_seconds=round(st.get('solver_time', 0.0), 2)),
                             cover_points=agg['covers'], bound_hits=agg['bound_hits'], cvc5_crosscheck=agg['cvc5'], differential=agg['diff'],
                             confirmed_violations=agg['confirmed'], known_findings=agg['known'], unconfirmed_counterexamples=agg['unconfirmed'],
-                            undecided_vcs=agg['unknown_vcs'][:10], engine_errors=agg['errors'][:20], jobs=agg['jobs'],
+                            undecided_vcs=agg['unknown_vcs'][:10], engine_errors=agg['errors'][:20], jobs=agg['jobs'], wall_budget_s=wall_budget,
                             outside_bounds=text.get('outside', ''), bounds=text.get('bounds', {}).get(tier, text.get('bounds', '')), design_ref=design_ref),
               assumptions=assumptions, wall_s=round(wall, 1), violations=len(agg['confirmed']))
     if states == 0:
